@@ -13,6 +13,7 @@ import (
 
 	"github.com/ethereum/go-ethereum/common"
 	ethcrypto "github.com/ethereum/go-ethereum/crypto"
+	"github.com/shutter-network/shutter/shlib/puredkg"
 	"github.com/shutter-network/shutter/shlib/shcrypto"
 
 	"github.com/shutter-network/rolling-shutter/rolling-shutter/medley/identitypreimage"
@@ -103,6 +104,19 @@ func NewWorld(seed int64) *World {
 		}
 	}
 	return w
+}
+
+// PureResultOther is the DKG result keyper k holds for a key generation that used the OTHER
+// trusted-dealer key material (the superseded / the restarted one in the history family).
+func (w *World) PureResultOther(k int) *puredkg.Result {
+	var pks []*shcrypto.EonPublicKeyShare
+	for i := 0; i < w.N; i++ {
+		pks = append(pks, w.Other.EonPublicKeyShare(i))
+	}
+	return &puredkg.Result{
+		Eon: w.Eon, NumKeypers: uint64(w.N), Threshold: uint64(w.T), Keyper: uint64(k),
+		SecretKeyShare: w.Other.EonSecretKeyShare(k), PublicKey: w.Other.EonPublicKey(), PublicKeyShares: pks,
+	}
 }
 
 func ecdsaOf(label string) *ecdsa.PrivateKey {
